@@ -821,6 +821,8 @@ func c12R4(c *Ctx) {
 					ob := c.Ob("C12.R4", "producer/"+a.FuncName(fn)+"@"+a.FuncName(f)+"#"+itoa(indexOfStore(f, in)), in.Pos())
 					if ok, why := isProducer(v); ok {
 						ob.Ok("%s: %s", what, why)
+					} else if k, isConst := v.(*ssa.Const); isConst && k.IsNil() && transientNilOK(c, a.FuncName(fn)) {
+						ob.Ok("%s: a nil placeholder that is never visible: the folded spine of %s (C05.R5) shows exactly the model's elements afterwards, none of them a raw nil", what, a.FuncName(fn))
 					} else {
 						ob.Fail("%s stores a field that is not produced by parseVal/a constructor nor taken from a spine: %s", what, why)
 					}
@@ -849,4 +851,19 @@ func indexOfStore(f *ssa.Function, target ssa.Instruction) int {
 		}
 	}
 	return 0
+}
+
+// transientNilOK: the list mutator `name` is one of those whose effect is decided cell by cell on the folded spine (C05.R5) and that
+// decision is positive: whatever nil it writes on the way is overwritten or cut off before the method returns.
+func transientNilOK(c *Ctx, name string) bool {
+	r := newReport("tmp")
+	c2 := *c
+	c2.R = r
+	c05Sequence(&c2)
+	for _, o := range r.obls {
+		if o.Construct == name+"/sequence-model" {
+			return o.Status == Discharged
+		}
+	}
+	return false
 }
